@@ -244,7 +244,7 @@ VALUE_POOL = [
     {"a": {"type": "integer"}, "b": {}}, {"a": ["b"]}, {"a": "b"}, {"a": {"required": True}}, {"a": {"required": ["b"]}},
     {"^a": {"type": "integer"}}, {"": {}}, {"a": {}}, {"b$": {}, "^a": {"type": "string"}}, {"a": True}, {"a": False},
     {"maxLength": 1}, {"a": 0}, {"a": False}, {"enum": [1]}, {"not": {}},
-    9007199254740992.0, 9007199254740993, {"a": {"default": 1}}, {"a": {"default": 1}, "b": {"title": "t"}},
+    9007199254740992.0, 9007199254740993, 2.0 ** -30, 2.0 ** -64, {"a": {"default": 1}}, {"a": {"default": 1}, "b": {"title": "t"}},
     ["a", "b", "c"], {"a": ["b", "c"]}, {"a": {"type": "integer"}, "b": {"type": "integer"}},
     [{"type": "integer"}, {"type": "integer"}, {"type": "integer"}], {"type": "integer", "minimum": 5},
     [{}, {"type": "integer"}], [True, {"type": "integer"}], ["string", {"type": "integer", "minimum": 5}],
@@ -477,6 +477,27 @@ def search_extras(job):
                         report(d, tree(ref, {}), tree(ref, extra), inst, a, b)
                         if len(out) >= limit:
                             return {"failures": out, "tried": tried}
+        # the OTHER draft's identifier spelling establishes no base URI: neither at the root (a relative reference that would
+        # reach a document of the store if the spelling counted) nor on a subschema above a same-document reference
+        meta_id = cls.META_SCHEMA.get(idk, "")
+        mdir = meta_id.rsplit("/", 1)[0] + "/" if meta_id else ""
+        if mdir:
+            base = {"properties": {"a": {"$ref": "schema#/properties/title"}}}
+            dec = dict(base, **{other_id: mdir})
+            for inst in ({"a": 1}, {"a": "t"}):
+                tried += 1
+                a, b = errs(cls, base, inst), errs(cls, dec, inst)
+                if a != b:
+                    report(d, base, dec, inst, a, b)
+        base = {"definitions": {"t": {"type": "integer"}}, "properties": {"a": {"properties": {"b": {"$ref": "#/definitions/t"}}}}}
+        dec = {"definitions": {"t": {"type": "integer"}}, "properties": {"a": {other_id: "demo://elsewhere.invalid/x/", "properties": {"b": {"$ref": "#/definitions/t"}}}}}
+        for inst in ({"a": {"b": 1}}, {"a": {"b": "s"}}):
+            tried += 1
+            a, b = errs(cls, base, inst), errs(cls, dec, inst)
+            if a != b:
+                report(d, base, dec, inst, a, b)
+        if len(out) >= limit:
+            return {"failures": out, "tried": tried}
         # identifier-looking objects inside annotations / unknown keywords do not become reference targets
         url = "demo://nowhere.invalid/thing.json"
         for k in ("default", "examples", "x-made-up", "definitions-not", "enum"):
